@@ -16,6 +16,7 @@ extern "C"
     void h_wake_end(void);
     void h_delegate_parking(int id, int prio, void *head);
     void h_delegate_woken(int id, long fut);
+    void h_delegate_dying(int id);
     void h_delegate_handler(int id, int which, int expected);
     void h_push_begin(int prod, int seq);
     void h_push_end(int prod, int seq);
@@ -33,7 +34,7 @@ extern "C"
     void prog_wake(void *head, int all, int wrapped, long u);
     void *prog_delegate_new(int id, int kind);
     void prog_delegate_delete(void *d);
-    void prog_delegate_park(void *d, void *head, int prio);
+    void *prog_delegate_park(void *d, void *head, int how);
     void *prog_queue_new(void);
     void *prog_queue_new_preloaded(int prod, int n);
     void prog_queue_delete(void *q);
